@@ -108,7 +108,7 @@ func main() {
 	if tier == "thorough" {
 		r.SetBudget(25 * time.Minute)
 	} else {
-		r.SetBudget(150 * time.Second)
+		r.SetBudget(300 * time.Second) // the quick tiers take 5-70 s on an idle 16-core machine; the margin is for a loaded one
 	}
 	c.Run(r)
 	os.Exit(r.Finish())
